@@ -14,7 +14,8 @@ for f in d['findings']:
         print(f['id'], f['commit'], f['property'][0])
 PY
 while read id commit prop; do
-  WT=/tmp/fxmut-$$-$id
+  WT=/tmp/verif-mutwt   # one fixed path: the Go build cache is keyed by directory, a fresh path per mutant filled the disk
+  git -C /repo worktree remove --force $WT 2>/dev/null
   git -C /repo worktree add -q --detach $WT HEAD || { echo "$id ERROR worktree"; continue; }
   cp /repo/pkg/shell/verif_on.go $WT/pkg/shell/ 2>/dev/null
   if ! (cd $WT && git revert --no-commit $commit >/dev/null 2>&1); then echo "$id SKIP revert of $commit conflicts ($prop)"; git -C /repo worktree remove --force $WT; continue; fi
